@@ -359,7 +359,11 @@ Definition tree_step_core (s : tstate) (o : top) (r : tres) : verdict * tstate :
               | LAmbiguous => (VSkip, s)
               | LDot | LDotDot => (expect_err r EAlreadyExists 155, s)
               | LNode m =>
-                if t_id m =? t_id n then (match r with ROk => VOk | _ => VBad 156 end, s)
+                if t_id m =? t_id n
+                then (* the destination name resolves to the source itself (same name, another spelling of it, or its
+                        alias): a case-preserving tree takes the new spelling *)
+                  (match r with ROk => VOk | _ => VBad 156 end,
+                   match r with ROk => move_node s (t_id n) dd dfinal alias | _ => s end)
                 else (expect_err r EAlreadyExists 155, s)
               | LNone =>
                 if t_is_dir n && is_ancestor s (t_id n) dd (S (length (ts_nodes s)))
